@@ -13,7 +13,7 @@ def canon_eval(o):
         # NaN payload and sign are not visible inside Coq
         res = re.sub(r"F(7ff[89a-f][0-9a-f]{12}|fff[89a-f][0-9a-f]{12}|7ff[0-7][0-9a-f]{12}|fff[0-7][0-9a-f]{12})",
                      lambda m: "F7ff8000000000000" if int(m.group(1), 16) & 0x000fffffffffffff else "F" + m.group(1), res)
-    if steps == "STEPS 0":
+    if steps == "STEPS 0" and res.startswith("ERR"):
         heap = "HEAP -"
     else:
         h = heap.split()
@@ -99,6 +99,32 @@ def run_corr(ctx, sources, log, budget=20000, stages=("compile", "eval"), shard_
         ctx.disagree("compiler" if st == "compile" else "vm", source=sources[i], impl=impl, model=model)
     log("%s: %d sources x %s in Coq, %d disagreements" % (label, len(sources), "+".join(stages), len(bad_global)))
     return obs
+
+
+def run_corr_budgets(ctx, sources, budgets, obs_eval, log, shard_size=150, label="run-k"):
+    """eval stage only, with one instruction budget per case; the implementation's observations are given"""
+    utab, lit_pt = front.oracle_tables(sources, tag=ctx.prop.lower())
+    stab, ptab, rtab = oracle_from_obs(obs_eval)
+    hdr = header(utab, lit_pt, stab, ptab, rtab)
+    items = ["REval %d %s %s" % (b, vlib.coq_text(s), vlib.coq_hash(canon_eval(o))) for s, b, o in zip(sources, budgets, obs_eval)]
+    footer = lambda: "Eval vm_compute in (mismatches (check utab stab ptab rtab) cases)."
+    shards, results, errors = vlib.run_coq_shards(ctx.prop, hdr, items, footer, shard_size=shard_size, tag=label, timeout=1500)
+    for e in errors:
+        ctx.broken.append(dict(kind="corr-shard", what=e))
+    off = 0
+    nbad = 0
+    for k, sh in enumerate(shards):
+        if k in results:
+            bad = vlib.parse_index_list(results[k])
+            if bad is None:
+                ctx.broken.append(dict(kind="corr-output", what=results[k][-300:]))
+            else:
+                for j in bad:
+                    nbad += 1
+                    gi = off + j
+                    ctx.disagree("vm", source=sources[gi], budget=budgets[gi], impl=canon_eval(obs_eval[gi]), model="VM.v renders a different observation at this budget")
+        off += len(sh)
+    log("%s: %d (source, budget) pairs in Coq, %d disagreements" % (label, len(items), nbad))
 
 
 FUN_RE = re.compile(r"(?<![0-9a-fA-F#=S.])f\d+\.\d+")
